@@ -143,6 +143,14 @@ fn snippet(ch: &mut Choices, k: usize, uid: usize, top: bool, feats: &mut Vec<&'
             f("push-nth");
             format!("{} [ {} ] push -1 nth", a, b)
         }
+        25 => {
+            f("gap-local-branch");
+            format!(": wg{u} {} if 10 local a a drop then {} local b b ; wg{u}", if a % 2 == 0 { "false" } else { "true" }, b, u = uid)
+        }
+        26 => {
+            f("gap-local-zero-trip");
+            format!(": wz{u} {} 0 do I local a a drop loop {} local b b a ; wz{u}", a % 3, b, u = uid)
+        }
         _ => {
             f("print");
             format!("{} print", a)
@@ -150,7 +158,7 @@ fn snippet(ch: &mut Choices, k: usize, uid: usize, top: bool, feats: &mut Vec<&'
     }
 }
 
-const N_SNIPPETS: usize = 26;
+const N_SNIPPETS: usize = 28;
 
 const FAILING: &[&str] = &[
     "1 0 /",
